@@ -107,6 +107,10 @@ def scalar_part(emit, tier, shard, nshards):
         ps = all_periods(ind, 1900, 2100) if ind != "D" else [(y, k) for y in dyears for k in range(1, days_in(y) + 1)]
         jobs.append((f"tp:{ind}", "getyear", "DS_r <- DS_1[calc Me_2 := getyear(Me_1)];", [(ind,) + p for p in ps], lambda p: p[1]))
         jobs.append((f"tp:{ind}", "period_indicator", "DS_r <- DS_1[calc Me_2 := period_indicator(Me_1)];", [(ind,) + p for p in ps], lambda p: p[0]))
+        if ind == "D":
+            # a day belongs to the ISO week (and ISO year) of its date
+            jobs.append((f"tp:{ind}", "time_agg:W", 'DS_r <- DS_1[calc Me_2 := time_agg("W", Me_1)];', [(ind,) + p for p in ps],
+                         lambda p: "{}W{}".format(*(datetime.date(p[1], 1, 1) + datetime.timedelta(days=p[2] - 1)).isocalendar()[:2])))
         if ind in "DMQS":
             for to in ORDER[ORDER.index(ind) + 1:]:
                 jobs.append((f"tp:{ind}", f"time_agg:{to}", f'DS_r <- DS_1[calc Me_2 := time_agg("{to}", Me_1)];', [(ind,) + p for p in ps],
